@@ -103,7 +103,7 @@ func execPlan(p *Plan) (*oneOut, error) {
 	f.Close()
 	of := f.Name() + ".out"
 	defer os.Remove(of)
-	cmd := exec.Command(self, "-test.run=^TestOne$", "-test.timeout=10m")
+	cmd := exec.Command(self, "-test.run=^TestOne$", "-test.timeout=150s")
 	cmd.Env = append(os.Environ(), "LIVESIM_MODE=one", "LIVESIM_CASE="+f.Name(), "LIVESIM_OUT="+of, "GOMAXPROCS=2")
 	ob, err := cmd.CombinedOutput()
 	b, rerr := os.ReadFile(of)
@@ -111,6 +111,11 @@ func execPlan(p *Plan) (*oneOut, error) {
 		// the process died (a crash of the runtime or an unrecovered panic of the
 		// library in another goroutine): that is a finding, not infrastructure
 		if err != nil {
+			if bytes.Contains(ob, []byte("test timed out")) {
+				// plans take seconds; one that is still running after 150 s has a
+				// request (or a snapshot) that never returned
+				return &oneOut{Findings: []Finding{{Clause: "C20.no-answer", Msg: "the plan did not finish within 150 s (plans normally take seconds): a request or snapshot never returned; goroutines at the timeout: " + tail(string(ob), 2500)}}, Probes: map[string]int{}}, nil
+			}
 			return &oneOut{Findings: []Finding{{Clause: "C20.panic", Msg: "the process executing the plan died: " + err.Error() + ": " + tail(string(ob), 1500)}}, Probes: map[string]int{}}, nil
 		}
 		return nil, rerr
@@ -336,7 +341,26 @@ func orchestrate() int {
 		t1 := time.Now()
 		cmd := exec.Command(bin, "-test.run=^TestFreeRunning$", "-test.timeout=2h")
 		cmd.Env = append(os.Environ(), "LIVESIM_MODE=race", fmt.Sprintf("LIVESIM_SEED=%d", seed), fmt.Sprintf("LIVESIM_ROUNDS=%d", rounds), "GORACE=halt_on_error=1 exitcode=66", "GOMAXPROCS=16")
-		ob, err := cmd.CombinedOutput()
+		var obuf bytes.Buffer
+		cmd.Stdout, cmd.Stderr = &obuf, &obuf
+		err := cmd.Start()
+		if err == nil {
+			done := make(chan error, 1)
+			go func() { done <- cmd.Wait() }()
+			limit := 5 * time.Minute
+			if tier == "thorough" {
+				limit = 45 * time.Minute
+			}
+			select {
+			case err = <-done:
+			case <-time.After(limit):
+				cmd.Process.Kill()
+				<-done
+				fmt.Fprintf(os.Stderr, "INFRASTRUCTURE: free-running stage %s: watchdog: not finished after %v (killed)\n", filepath.Base(bin), limit)
+				return 2
+			}
+		}
+		ob := obuf.Bytes()
 		name := filepath.Base(bin)
 		free[name] = map[string]any{"rounds": rounds, "wall_s": time.Since(t1).Seconds(), "ok": err == nil}
 		if err != nil {
